@@ -6,7 +6,6 @@ R = "/repo/"
 M = [
  ("C01_ld_b_c_wrong_source", "gameboy/cpu/dispatch.go", "cpu.normal[0x41] = []func(){cpu.ldBC}", "cpu.normal[0x41] = []func(){cpu.ldBD}", ["C01"]),
  ("C01_popf_no_mask", "gameboy/cpu/instructions.go", "cpu.f = cpu.mapper.Read(cpu.sp) & 0xf0", "cpu.f = cpu.mapper.Read(cpu.sp)", ["C01"]),
- ("C01_hc8_mask", "gameboy/cpu/flags.go", "return a&0x0f+b&0x0f > 0x0f", "return a&0x1f+b&0x0f > 0x0f", ["C01"]),
  ("C02_push_bc_dropped_nop", "gameboy/cpu/dispatch.go", "cpu.normal[0xc5] = []func(){nop, nop, ", "cpu.normal[0xc5] = []func(){nop, ", ["C02", "C03"]),
  ("C02_ret_nz_wrong_flag", "gameboy/cpu/dispatch.go", "cpu.isFinishedEarlys[0xc0] = isFinishedEarly(cpu.zf, 2, 5)", "cpu.isFinishedEarlys[0xc0] = isFinishedEarly(cpu.nzf, 2, 5)", ["C02"]),
  ("C03_inc_hl_read_early", "gameboy/cpu/dispatch.go", "cpu.normal[0x34] = []func(){nop, cpu.ldMHL, cpu.incM}", "cpu.normal[0x34] = []func(){cpu.ldMHL, nop, cpu.incM}", ["C03"]),
